@@ -46,6 +46,9 @@ type JEv struct {
 	// gossip: every dial the list causes hangs this long (unreachable or unresponsive peers)
 	// before it is answered
 	GateHoldMs int `json:"gate_hold_ms,omitempty"`
+	// connected: no stream can be opened during this event (the peers refuse the discovery
+	// protocol, or are gone): nothing is announced, everything else goes on
+	StreamFail bool `json:"stream_fail,omitempty"`
 }
 type In struct {
 	Tag    string `json:"tag"`
@@ -84,6 +87,7 @@ type svc struct {
 	gate       chan struct{}
 	done       sync.WaitGroup
 	strArmed   bool
+	streamFail bool
 	slowMs     int
 	strHit     chan struct{}
 	strRel     chan struct{}
@@ -141,7 +145,11 @@ func (s *svc) NewStream(ctx context.Context, p p2p.Peer, _ p2p.Header, _ p2p.Str
 	s.strArmed = false
 	slow := s.slowMs
 	s.slowMs = 0
+	fail := s.streamFail
 	s.mu.Unlock()
+	if fail {
+		return nil, errors.New("protocols not supported")
+	}
 	// as the node's host does: a stream is not opened on behalf of a context that is over
 	if slow > 0 {
 		select {
@@ -287,6 +295,7 @@ func run(in In) (obs Obs) {
 			s.lookupFail[a] = true
 		}
 		s.slowMs = 0
+		s.streamFail = ev.T == "connected" && ev.StreamFail
 		if ev.T == "connected" {
 			s.slowMs = ev.SlowFirstMs
 		}
@@ -473,8 +482,14 @@ func main() {
 			{T: "gossip", Entries: []JEntry{{Claimed: 50, Connect: P(50, 2)}, {Claimed: 30, Connect: P(30, 1)}}}, {T: "connected", P: P(2, 2)}}}
 		out.EmitGuarded(in, Obs{Panic: true, Steps: []Step{}}, func() (any, any) { return in, run(in) })
 	}
+	fixed = append(fixed,
+		In{"streams-refused", []JEv{{T: "connected", P: P(1, 1)}, {T: "connected", P: P(2, 2)}, {T: "connected", P: P(3, 1), StreamFail: true}, {T: "connected", P: P(4, 2), StreamFail: true},
+			{T: "connected", P: P(5, 1)}, {T: "disconnected", P: P(3, 1)}, {T: "connected", P: P(6, 2)}}},
+		In{"streams-refused", []JEv{{T: "connected", P: P(1, 1), StreamFail: true}, {T: "connected", P: P(2, 1), StreamFail: true}, {T: "connected", P: P(3, 2)}}},
+	)
 	for _, in := range fixed {
-		out.Emit(in, run(in))
+		in := in
+		out.EmitGuarded(in, Obs{Panic: true, Steps: []Step{}}, func() (any, any) { return in, run(in) })
 	}
 	roles := []int{1, 1, 1, 2, 2, 2, 0, -1}
 	for i := 0; i < vh.Count(400, 6000); i++ {
